@@ -29,16 +29,16 @@ Record shell := mkShell {
 
 (** [out] is the captured stdout (newest first); [quiet] says that stdout currently is the pipe
     of a non-final pipeline stage (nothing reads it in this fragment, so the output is dropped).
-    [ghost] records that the run went through one of the places where brush lets a control flow
-    or status escape that bash confines (it does not influence the run; see Simulation.v):
-    [GLeak]: the last stage of a multi-stage pipeline (run in a cloned shell) ended with a
-             non-Normal control flow, which [Pipeline::execute] hands to the parent;
-    [GBang]: a [!] pipeline ended with Return/Exit and had its exit code inverted;
+    [ghost] records that the run went through the one remaining place where brush lets a status
+    escape that bash confines (it does not influence the run; see Simulation.v):
     [GCond]: a while/until condition ended with a break/continue and an exit code that stops the
-             loop; the loop then reports the condition's code instead of the last body's;
-    [GCompound]: errexit fired on a single-command pipeline whose command is a compound command
-             other than a subshell or [(( ))] (bash never exits on those by themselves). *)
-Inductive gk := GLeak | GBang | GCond | GCompound.
+             loop; the loop then reports the condition's code instead of the last body's.
+    (Three further marks existed while the code had the defects repaired by the `fix:` commits
+    "errexit must not fire on a brace group / if / loop / case that failed quietly",
+    "`! exit n` / `! return n` must not invert the status of the exit/return itself" and
+    "break/continue/return/exit in a pipeline stage must not escape into the parent shell";
+    the model now follows the repaired [Pipeline::execute].) *)
+Inductive gk := GCond.
 Record world := mkWorld { sh : shell; out : list event; quiet : bool; ghost : list gk }.
 
 (** [OutOfFuel] remembers the ghost marks collected up to the point where the fuel ran out *)
@@ -167,24 +167,27 @@ Section Exec.
   Definition quiet_compound (c : cmd) : bool :=
     match c with Brace _ | If _ _ _ | Loop _ _ _ | For _ _ _ | Case _ => true | _ => false end.
 
-  (** [impl Execute for ast::Pipeline] *)
+  (** [impl Execute for ast::Pipeline].
+      - every stage of a multi-command pipeline runs in its own copy of the shell, so only the exit
+        code of the last stage comes back ([lastpipe] is off in this fragment);
+      - [!] inverts the code unless the result is a return/exit on its way out;
+      - errexit is applied unless suppressed, negated, or the pipeline is a lone brace group / if /
+        loop / case ([is_lone_quiet_compound_command]). *)
   Definition exec_pipeline (p : pipeline) (sup : bool) (w : world) : outcome result :=
     let '(bang, stages) := p in
     let sup' := sup || bang in
     let multi := match stages with [_] => false | _ => true end in
+    let lone_quiet := match stages with [c] => quiet_compound c | _ => false end in
     bind (match stages with
           | [c] => bind (rec c sup' w) (fun r w1 => Out [r] w1)
           | _ => run_stages stages sup' w
           end) (fun rs w1 =>
-      let r0 := pipe_result (pipefail (opt (sh w1))) rs in
-      let w2 := mark GLeak (multi && negb (is_normal r0)) w1 in
-      let code := if bang then (if is_success r0 then 1 else 0) else fst r0 in
-      let w3 := mark GBang (bang && is_return_or_exit r0) w2 in
-      let w4 := set_last code w3 in
+      let r := pipe_result (pipefail (opt (sh w1))) rs in
+      let r0 : result := if multi then (fst r, Normal) else r in
+      let code := if bang && negb (is_return_or_exit r0) then (if is_success r0 then 1 else 0) else fst r0 in
+      let w4 := set_last code w1 in
       let r1 := (code, snd r0) in
-      let r2 := if negb sup' then apply_errexit (sh w4) r1 else r1 in
-      let fired := negb (is_normal r2) && is_normal r1 in
-      Out r2 (mark GCompound (fired && match stages with [c] => quiet_compound c | _ => false end) w4)).
+      Out (if negb sup' && negb lone_quiet then apply_errexit (sh w4) r1 else r1) w4).
 
   (** [impl Execute for ast::AndOrList] *)
   Fixpoint andor_rest (rest : list (bool * pipeline)) (sup : bool) (res : result) (w : world)
